@@ -64,7 +64,7 @@ func c14Purity(c *core.Ctx) {
 	T := c.R.IntRange(1, 30)
 	wc := 0
 	if needsWidthClass(model) {
-		wc = 1 + c.R.Intn(13)
+		wc = widthClassFor(c.R, N)
 	}
 	P := 1 + c.R.Intn(N)
 	run := GenRun(model, c.R, N, P, N, T, wc)
@@ -152,7 +152,7 @@ func c14Causal(c *core.Ctx) {
 	T := c.R.IntRange(2, 24)
 	wc := 0
 	if needsWidthClass(model) {
-		wc = 1 + c.R.Intn(13)
+		wc = widthClassFor(c.R, N)
 	}
 	run := GenRun(model, c.R, N, N, N, T, wc)
 	// truncation points: every t for short series, random otherwise
